@@ -404,6 +404,29 @@ fn run_in(case: &C19Case, nu: &mut Nu) -> Result<CaseInfo, Fail> {
     if let Some(p) = nu.panics()?.first() {
         return Err(Fail::new(Class::Panic, format!("xs panicked: {p}")));
     }
+    // calls are never executed again after a restart: kill the server, start it on the same
+    // store, wait until its commands loop is live, and count the stamped frames per call again
+    // (stored frames only: the observer of the restarted server cannot have seen earlier ephemeral ones)
+    let count = |fr: &[WFrame], id: &String| {
+        fr.iter()
+            .filter(|w| w.ttl != Some(WTtl::Ephemeral) && meta_of(w, "frame_id").as_deref() == Some(id))
+            .count()
+    };
+    let before: Vec<(String, usize)> = calls.iter().map(|c| (c.frame.id.clone(), count(&frames, &c.frame.id))).collect();
+    nu.restart()?;
+    nu.ready_commands()?;
+    std::thread::sleep(Duration::from_millis(20));
+    let after = nu.frames()?;
+    for (id, n) in &before {
+        checks += 1;
+        let now = count(&after, id);
+        // (fewer is possible: results carrying head:N are evicted by later ones)
+        if now > *n {
+            return Err(cmd(format!(
+                "call {id} had {n} stamped frames before the server was restarted and has {now} after — it was executed again"
+            )));
+        }
+    }
     let mut labels = vec![];
     for (on, name) in [
         (overlapped, "overlapping-calls"),
@@ -435,7 +458,7 @@ pub fn run(tier: Tier, seed: u64, replay: Option<&std::path::Path>) -> i32 {
         40,
         strategy,
         run_case,
-        "sequences (1..9) of define / redefine / call over four command names in two contexts; definitions rendered from an AST: output = nothing, a single value, a list of 0..4 values of any JSON-able nu type, a 1..4 element stream, or a stream whose k-th element raises; optional explicit `.append` inside, environment mutation that detects state leaking between calls, sleep of 15/40 ms (so that 1..4 back-to-back calls overlap), custom suffix/ttl, a module; broken definitions (parse error, no `run` field) and closures that raise at once. Oracle per call: the frames stamped with its id are k results on <name><suffix> (configured ttl, JSON-equal content, in order) followed by exactly one <name>.complete, or exactly one <name>.error; all stamped with the latest valid definition that precedes the call, all in the caller's context; nothing for calls of undefined names; an invalid definition is reported once by <name>.error and never answers. Non-trivial = >= 2 overlapping calls or a redefine between two calls. Distinct by case hash.",
+        "sequences (1..9) of define / redefine / call over four command names in two contexts; definitions rendered from an AST: output = nothing, a single value, a list of 0..4 values of any JSON-able nu type, a 1..4 element stream, or a stream whose k-th element raises; optional explicit `.append` inside, environment mutation that detects state leaking between calls, sleep of 15/40 ms (so that 1..4 back-to-back calls overlap), custom suffix/ttl, a module; broken definitions (parse error, no `run` field) and closures that raise at once. Oracle per call: the frames stamped with its id are k results on <name><suffix> (configured ttl, JSON-equal content, in order) followed by exactly one <name>.complete, or exactly one <name>.error; all stamped with the latest valid definition that precedes the call, all in the caller's context; nothing for calls of undefined names; an invalid definition is reported once by <name>.error and never answers; after a kill + restart of the server no call has gained a stamped frame. Non-trivial = >= 2 overlapping calls or a redefine between two calls. Distinct by case hash.",
         vec![
             "calls are made in the context of the definition (what a same-named definition in another context does is C17's clause)".to_string(),
             "for errors raised lazily inside a stream only: one terminal event, stamps, context, and no more results than elements".to_string(),
